@@ -136,18 +136,261 @@ theorem multi_file_merge (f g : FileEntry) (k : Nat)
   | inl h => rw [key _ h]
   | inr h => rw [key _ h]
 
+/-- `get = none → lastOf = none` (a key that is not bound has no last binding) -/
+theorem lastOf_none_of_get_none (s : Store) (k : Nat) (h : Store.get s k = none) : lastOf s k = none := by
+  simp only [lastOf]
+  induction s with
+  | nil => rfl
+  | cons p rest ih =>
+      obtain ⟨a, b⟩ := p
+      simp only [Store.get, List.reverse_cons, get_append] at h ⊢
+      split at h
+      · cases h
+      · rw [ih h]; rename_i hne; simp [hne]
+
+/-- the fold of `__get_all_base_constants/points` over ANY number of files: the last file (in reading
+order) that binds the key decides, the accumulator answers otherwise -/
+theorem get_foldl_update (p : FileEntry → Store) (fs : List FileEntry) (acc : Store) (k : Nat) :
+    Store.get (fs.foldl (fun a f => Store.update a (p f)) acc) k =
+      match lastDef p fs k with | some v => some v | none => Store.get acc k := by
+  induction fs generalizing acc with
+  | nil => simp [lastDef]
+  | cons f rest ih =>
+      simp only [List.foldl_cons, lastDef]
+      rw [ih]
+      cases lastDef p rest k with
+      | some v => rfl
+      | none => simp only [get_update, over]; cases lastOf (p f) k <;> rfl
+
+theorem allBaseConsts_eq (fs : List FileEntry) (k : Nat) :
+    Store.get (allBaseConsts fs) k = lastDef (·.bc) fs k := by
+  simp only [allBaseConsts]
+  rw [get_foldl_update (·.bc)]
+  cases lastDef (·.bc) fs k <;> simp [Store.get]
+
+theorem allBasePts_eq (fs : List FileEntry) (k : Nat) :
+    Store.get (allBasePts fs) k = lastDef (·.bp) fs k := by
+  simp only [allBasePts]
+  rw [get_foldl_update (·.bp)]
+  cases lastDef (·.bp) fs k <;> simp [Store.get]
+
+theorem lastDef_none (p : FileEntry → Store) (fs : List FileEntry) (k : Nat) :
+    lastDef p fs k = none ↔ ∀ f ∈ fs, lastOf (p f) k = none := by
+  induction fs with
+  | nil => simp [lastDef]
+  | cons f rest ih =>
+      simp only [lastDef, List.mem_cons, forall_eq_or_imp]
+      cases h : lastDef p rest k with
+      | some v =>
+          simp only [reduceCtorEq, false_iff]
+          intro ⟨_, h2⟩
+          rw [ih.mpr h2] at h; cases h
+      | none => simp only []; exact ⟨fun h1 => ⟨h1, ih.mp h⟩, fun h1 => h1.1⟩
+
+theorem lastDef_some (p : FileEntry → Store) (fs : List FileEntry) (k v : Nat) (h : lastDef p fs k = some v) :
+    ∃ f ∈ fs, lastOf (p f) k = some v := by
+  induction fs with
+  | nil => simp [lastDef] at h
+  | cons f rest ih =>
+      simp only [lastDef] at h
+      cases h2 : lastDef p rest k with
+      | some w =>
+          rw [h2] at h; simp only [Option.some.injEq] at h; subst h
+          obtain ⟨g, hg, hv⟩ := ih h2
+          exact ⟨g, List.mem_cons_of_mem _ hg, hv⟩
+      | none => rw [h2] at h; exact ⟨f, List.mem_cons_self, h⟩
+
+/-- **n files, any order.**  If the files that bind a base key agree on its value (in particular: if no
+key is bound by two files), the merged base value of that key does not depend on the order in which the
+files are read, nor on how often a file is listed: two file lists with the same members give the same value. -/
+theorem merge_consistent (p : FileEntry → Store) (fs fs' : List FileEntry) (k : Nat)
+    (hmem : ∀ f, f ∈ fs ↔ f ∈ fs')
+    (hcons : ∀ f ∈ fs, ∀ g ∈ fs, ∀ v w, lastOf (p f) k = some v → lastOf (p g) k = some w → v = w) :
+    lastDef p fs k = lastDef p fs' k := by
+  cases h : lastDef p fs k with
+  | none =>
+      have h1 := (lastDef_none p fs k).mp h
+      exact ((lastDef_none p fs' k).mpr fun f hf => h1 f ((hmem f).mpr hf)).symm
+  | some v =>
+      obtain ⟨f, hf, hv⟩ := lastDef_some p fs k v h
+      cases h' : lastDef p fs' k with
+      | none =>
+          have := (lastDef_none p fs' k).mp h' f ((hmem f).mp hf)
+          rw [this] at hv; cases hv
+      | some w =>
+          obtain ⟨g, hg, hw⟩ := lastDef_some p fs' k w h'
+          rw [hcons f hf g ((hmem g).mpr hg) v w hv hw]
+
+/-- pairwise key-disjoint files are consistent -/
+theorem consistent_of_pairwise (p : FileEntry → Store) (fs : List FileEntry) (k : Nat)
+    (hd : fs.Pairwise (fun f g => Store.get (p f) k = none ∨ Store.get (p g) k = none)) :
+    ∀ f ∈ fs, ∀ g ∈ fs, ∀ v w, lastOf (p f) k = some v → lastOf (p g) k = some w → v = w := by
+  induction fs with
+  | nil => intro f hf; cases hf
+  | cons x xs ih =>
+      rw [List.pairwise_cons] at hd
+      intro f hf g hg v w hv hw
+      have clash : ∀ a ∈ xs, ∀ u u', lastOf (p x) k = some u → lastOf (p a) k = some u' → False := by
+        intro a ha u u' h1 h2
+        cases hd.1 a ha with
+        | inl h => rw [lastOf_none_of_get_none _ _ h] at h1; cases h1
+        | inr h => rw [lastOf_none_of_get_none _ _ h] at h2; cases h2
+      rcases List.mem_cons.mp hf with rfl | hf' <;> rcases List.mem_cons.mp hg with rfl | hg'
+      · rw [hv] at hw; exact Option.some.inj hw
+      · exact (clash g hg' v w hv hw).elim
+      · exact (clash f hf' w v hw hv).elim
+      · exact ih hd.2 f hf' g hg' v w hv hw
+
+/-- **`multi_file_merge` for n files**: base constants and base points spread over any number of files
+with no key bound by two files: every permutation of the file list yields the same base values. -/
+theorem multi_file_merge_n (fs fs' : List FileEntry) (k : Nat) (hperm : fs.Perm fs')
+    (hc : fs.Pairwise (fun f g => Store.get f.bc k = none ∨ Store.get g.bc k = none))
+    (hp : fs.Pairwise (fun f g => Store.get f.bp k = none ∨ Store.get g.bp k = none)) :
+    Store.get (allBaseConsts fs) k = Store.get (allBaseConsts fs') k ∧
+    Store.get (allBasePts fs) k = Store.get (allBasePts fs') k := by
+  rw [allBaseConsts_eq, allBaseConsts_eq, allBasePts_eq, allBasePts_eq]
+  exact ⟨merge_consistent (·.bc) fs fs' k (fun f => hperm.mem_iff) (consistent_of_pairwise (·.bc) fs k hc),
+         merge_consistent (·.bp) fs fs' k (fun f => hperm.mem_iff) (consistent_of_pairwise (·.bp) fs k hp)⟩
+
+/-- the effective settings of a file scenario do not depend on the file order (n files) -/
+theorem resolve_file_order (c : Cfg) (mrs : RunSpec) (fs fs' : List FileEntry) (d : Dict) (k : Nat) (hperm : fs.Perm fs')
+    (hc : fs.Pairwise (fun f g => Store.get f.bc k = none ∨ Store.get g.bc k = none))
+    (hp : fs.Pairwise (fun f g => Store.get f.bp k = none ∨ Store.get g.bp k = none)) :
+    Store.get (resolveFile c mrs fs d).consts k = Store.get (resolveFile c mrs fs' d).consts k ∧
+    Store.get (resolveFile c mrs fs d).pts k = Store.get (resolveFile c mrs fs' d).pts k := by
+  obtain ⟨h1, h2⟩ := multi_file_merge_n fs fs' k hperm hc hp
+  simp only [resolveFile, get_fill, oplus, h1, h2, and_self]
+
 /-! ### application: what the simulated model carries = the effective settings -/
 
-/-- C07 at full strength for one scenario: whatever the channel delivered (`s`), the model that is
+/-! ### the sibling clause: base values apply to every scenario of the manager unless it overrides them -/
+
+/-- the shared machine and the per-scenario references are in step -/
+structure MInv (bc bp : Store) (st : MState) (σ : Nat → Option Settings) : Prop where
+  bc_eq : st.bc = bc
+  bp_eq : st.bp = bp
+  view_eq : ∀ i, mview st i = σ i
+  noalias : ∀ i s, st.scns i = some s → s.cAlias = false ∧ s.pAlias = false
+
+theorem minv_init (bc bp : Store) : MInv bc bp (MState.init bc bp) (fun _ => none) :=
+  ⟨rfl, rfl, fun _ => rfl, fun i s h => by simp [MState.init] at h⟩
+
+theorem minv_step (c : Cfg) (hc : c.scenarioOwnsDicts = true) (mrs : RunSpec) (bc bp : Store) (st : MState)
+    (σ : Nat → Option Settings) (inv : MInv bc bp st σ) (op : MOp) :
+    MInv bc bp (mstep c mrs st op) (fun i => msoloStep mrs bc bp i (σ i) op) := by
+  obtain ⟨hbc, hbp, hview, hna⟩ := inv
+  cases op with
+  | add j d =>
+      refine ⟨hbc, hbp, ?_, ?_⟩
+      · intro i
+        simp only [mstep, hc, Bool.not_true, Bool.false_and, mview, updFn, msoloStep]
+        by_cases hij : i = j
+        · subst hij; simp [resolveDict, hbc, hbp]
+        · have : ¬ j = i := fun e => hij e.symm
+          simp only [hij, this, if_false]
+          have := hview i; simp only [mview] at this; exact this
+      · intro i s hs
+        simp only [mstep, hc, Bool.not_true, Bool.false_and, updFn] at hs
+        by_cases hij : i = j
+        · simp only [hij, if_true, Option.some.injEq] at hs; subst hs; exact ⟨rfl, rfl⟩
+        · simp only [hij, if_false] at hs; exact hna i s hs
+  | configure j d =>
+      cases hj : st.scns j with
+      | none =>
+          have e : mstep c mrs st (.configure j d) = st := by simp [mstep, hj]
+          rw [e]
+          refine ⟨hbc, hbp, ?_, hna⟩
+          intro i
+          simp only [msoloStep]
+          by_cases hij : j = i
+          · subst hij
+            have := hview j; simp only [mview, hj, Option.map_none] at this
+            simp [← this, mview, hj]
+          · simp only [hij, if_false]; exact hview i
+      | some s =>
+          obtain ⟨hca, hpa⟩ := hna j s hj
+          refine ⟨?_, ?_, ?_, ?_⟩
+          · simp [mstep, hj, hca, hbc]
+          · simp [mstep, hj, hpa, hbp]
+          · intro i
+            simp only [mstep, hj, hca, hpa, mview, updFn, msoloStep, Bool.false_eq_true, if_false]
+            by_cases hij : i = j
+            · subst hij
+              have := hview i; simp only [mview, hj, Option.map_some, hca, hpa, Bool.false_eq_true, if_false] at this
+              simp [← this, resolveSettings]
+            · have hji : ¬ j = i := fun e => hij e.symm
+              simp only [hij, hji, if_false]
+              have := hview i; simp only [mview] at this; exact this
+          · intro i s' hs
+            simp only [mstep, hj, updFn] at hs
+            by_cases hij : i = j
+            · simp only [hij, if_true, Option.some.injEq] at hs; subst hs; exact ⟨hca, hpa⟩
+            · simp only [hij, if_false] at hs; exact hna i s' hs
+
+theorem minv_run (c : Cfg) (hc : c.scenarioOwnsDicts = true) (mrs : RunSpec) (bc bp : Store) (ops : List MOp) :
+    ∀ (st : MState) (σ : Nat → Option Settings), MInv bc bp st σ →
+      MInv bc bp (ops.foldl (mstep c mrs) st) (fun i => ops.foldl (msoloStep mrs bc bp i) (σ i)) := by
+  induction ops with
+  | nil => intro st σ inv; exact inv
+  | cons op rest ih =>
+      intro st σ inv
+      simp only [List.foldl_cons]
+      exact ih _ _ (minv_step c hc mrs bc bp st σ inv op)
+
+/-- **Siblings.**  Whatever is registered on, or set for, other scenarios of the manager — before or after —
+scenario `i` carries exactly what the operations addressed to it make of `scenario ⊕ base`, with the base
+values the manager was registered with; and the manager's base values stay what they were. -/
+theorem siblings_isolated (c : Cfg) (hc : c.scenarioOwnsDicts = true) (mrs : RunSpec) (bc bp : Store) (ops : List MOp) (i : Nat) :
+    mview (mexec c mrs bc bp ops) i = msolo mrs bc bp i ops ∧
+    (mexec c mrs bc bp ops).bc = bc ∧ (mexec c mrs bc bp ops).bp = bp := by
+  have inv := minv_run c hc mrs bc bp ops _ _ (minv_init bc bp)
+  exact ⟨inv.view_eq i, inv.bc_eq, inv.bp_eq⟩
+
+theorem msolo_not_addressed (mrs : RunSpec) (bc bp : Store) (i : Nat) (post : List MOp) (h : ∀ op ∈ post, op.addr ≠ i)
+    (s : Option Settings) : post.foldl (msoloStep mrs bc bp i) s = s := by
+  induction post generalizing s with
+  | nil => rfl
+  | cons op rest ih =>
+      simp only [List.foldl_cons]
+      have h1 : msoloStep mrs bc bp i s op = s := by
+        have := h op List.mem_cons_self
+        cases op <;> simp_all [msoloStep, MOp.addr]
+      rw [h1]
+      exact ih (fun o ho => h o (List.mem_cons_of_mem _ ho)) s
+
+/-- A scenario registered **without overrides** reads the base values — for every key — when settings were
+supplied to siblings *before* its registration (`pre`, arbitrary) and *after* it (`post`, arbitrary operations
+addressed to other scenarios). -/
+theorem sibling_reads_base (c : Cfg) (hc : c.scenarioOwnsDicts = true) (mrs : RunSpec) (bc bp : Store)
+    (pre post : List MOp) (i : Nat) (hpost : ∀ op ∈ post, op.addr ≠ i) :
+    ∃ s, mview (mexec c mrs bc bp (pre ++ MOp.add i emptyDict :: post)) i = some s ∧ s.rs = mrs ∧
+      ∀ k, Store.get s.consts k = Store.get bc k ∧ Store.get s.pts k = Store.get bp k := by
+  refine ⟨resolveDict mrs bc bp emptyDict, ?_, ?_, ?_⟩
+  · rw [(siblings_isolated c hc mrs bc bp _ i).1]
+    simp only [msolo, List.foldl_append, List.foldl_cons]
+    rw [msolo_not_addressed mrs bc bp i post hpost]
+    simp [msoloStep]
+  · simp [resolveDict, emptyDict, RunSpec.override]
+  · intro k
+    have := resolve_dict mrs bc bp emptyDict k
+    simp only [emptyDict, oplus, Store.get] at this
+    exact ⟨this.1, this.2.1⟩
+
+/-- C07 at full strength: (1) whatever the channel delivered (`s`), the model that is
 simulated reads, for every constant and graphical function, the scenario's value where it has one and its
-own otherwise, and integrates from the scenario's start time to its stop time with its dt; file-channel
-run specs are the scenario's. -/
+own otherwise, and integrates from the scenario's start time to its stop time with its dt; (2) file-channel
+run specs are the scenario's; (3) **every** scenario of a manager carries `scenario ⊕ base` completed by the
+settings addressed to it — for all histories of registrations and settings on the manager's scenarios —
+and the manager's base values are never rewritten. -/
 def C07_full (c : Cfg) : Prop :=
   (∀ (m : ModelSt) (s : Settings) (k : Nat),
     (applyTo c m s).const k = over (lastOf s.consts) m.const k ∧
     (applyTo c m s).points k = over (lastOf s.pts) m.points k ∧
     (applyTo c m s).rs = s.rs) ∧
-  (∀ (mrs : RunSpec) (files : List FileEntry) (d : Dict), (resolveFile c mrs files d).rs = mrs.override d)
+  (∀ (mrs : RunSpec) (files : List FileEntry) (d : Dict), (resolveFile c mrs files d).rs = mrs.override d) ∧
+  (∀ (mrs : RunSpec) (bc bp : Store) (ops : List MOp) (i : Nat),
+    mview (mexec c mrs bc bp ops) i = msolo mrs bc bp i ops ∧
+    (mexec c mrs bc bp ops).bc = bc ∧ (mexec c mrs bc bp ops).bp = bp)
 
 theorem C07_partial (c : Cfg) (m : ModelSt) (s : Settings) (k : Nat) :
     (applyTo c m s).const k = over (lastOf s.consts) m.const k ∧
@@ -157,8 +400,9 @@ theorem C07_partial (c : Cfg) (m : ModelSt) (s : Settings) (k : Nat) :
 
 theorem C07_full_of_good (c : Cfg) (h : c.good = true) : C07_full c := by
   simp only [Cfg.good, Bool.and_eq_true] at h
-  refine ⟨fun m s k => ⟨get_update _ _ _, get_update _ _ _, ?_⟩, fun mrs files d => by simp [resolveFile, h.2]⟩
-  simp [applyTo, h.1]
+  refine ⟨fun m s k => ⟨get_update _ _ _, get_update _ _ _, ?_⟩, fun mrs files d => by simp [resolveFile, h.1.2],
+          fun mrs bc bp ops i => siblings_isolated c h.2 mrs bc bp ops i⟩
+  simp [applyTo, h.1.1]
 
 /-- `applied = effective` composed with the dict channel: scenario wins, base fills, model's own otherwise
 (for dictionaries without repeated keys `lastOf = get`; stated through `lastOf` of the completed store). -/
@@ -171,26 +415,44 @@ theorem C07_applied_dict (c : Cfg) (h : c.good = true) (m : ModelSt) (bc bp : St
 theorem C07_no_override (c : Cfg) (h : c.good = true) (m : ModelSt) :
     applyTo c m (resolveDict m.rs [] [] { consts := [], pts := [], start := none, stop := none, dt := none }) = m := by
   simp only [Cfg.good, Bool.and_eq_true] at h
-  simp [applyTo, resolveDict, Store.fill, Store.update, RunSpec.override, h.1]
+  simp [applyTo, resolveDict, Store.fill, Store.update, RunSpec.override, h.1.1]
 
 theorem C07_witness_start (c : Cfg) (h : c.runspecStartApplied = false) : ¬ C07_full c := by
   intro hf
   have := (hf.1 { eqs := [], pts := [], rs := ⟨0, 4, 1⟩ } { consts := [], pts := [], rs := ⟨1, 3, 1⟩ } 0).2.2
-  obtain ⟨a, b⟩ := c
+  obtain ⟨a, b, o⟩ := c
   simp only at h; subst h
-  revert this; cases b <;> decide
+  revert this; cases b <;> cases o <;> decide
 
 theorem C07_witness_file (c : Cfg) (h : c.fileRunspecsKept = false) : ¬ C07_full c := by
   intro hf
-  have := hf.2 ⟨0, 4, 1⟩ [] { consts := [], pts := [], start := some 1, stop := some 3, dt := none }
-  obtain ⟨a, b⟩ := c
+  have := hf.2.1 ⟨0, 4, 1⟩ [] { consts := [], pts := [], start := some 1, stop := some 3, dt := none }
+  obtain ⟨a, b, o⟩ := c
   simp only at h; subst h
-  revert this; cases a <;> decide
+  revert this; cases a <;> cases o <;> decide
+
+/-- dictionary identity as a mechanism fact: when a scenario without an own block receives the manager's base
+dictionary itself, settings for one scenario rewrite the base values for a sibling registered BEFORE and
+one registered AFTER (and the manager's base values themselves). -/
+theorem C07_witness_shared_base (c : Cfg) (h : c.scenarioOwnsDicts = false) : ¬ C07_full c := by
+  intro hf
+  have := (hf.2.2 ⟨0, 4, 1⟩ [(0, 2)] []
+    [.add 0 emptyDict, .add 1 emptyDict, .configure 1 { emptyDict with consts := [(0, 5)] }, .add 2 emptyDict] 0).1
+  obtain ⟨a, b, o⟩ := c
+  simp only at h; subst h
+  revert this; cases a <;> cases b <;> decide
+
+/-- the same history, read at the late scenario and at the manager: all three are rewritten -/
+example : ∀ a b, let c : Cfg := ⟨a, b, false⟩
+    let st := mexec c ⟨0, 4, 1⟩ [(0, 2)] []
+      [.add 0 emptyDict, .add 1 emptyDict, .configure 1 { emptyDict with consts := [(0, 5)] }, .add 2 emptyDict]
+    ((mview st 0).map (·.consts), (mview st 2).map (·.consts), st.bc) = (some [(0, 5)], some [(0, 5)], [(0, 5)]) := by
+  intro a b; cases a <;> cases b <;> decide
 
 /-- Non-vacuity: base constants spread over two files, scenario overriding one of them, run specs given. -/
 example :
     let files : List FileEntry := [⟨[(0, 5), (1, 6)], [], []⟩, ⟨[(2, 7)], [(0, 9)], []⟩]
-    let s := resolveFile ⟨true, true⟩ ⟨0, 4, 2⟩ files { consts := [(1, 60)], pts := [], start := some 1, stop := none, dt := some 1 }
+    let s := resolveFile ⟨true, true, true⟩ ⟨0, 4, 2⟩ files { consts := [(1, 60)], pts := [], start := some 1, stop := none, dt := some 1 }
     (Store.get s.consts 0, Store.get s.consts 1, Store.get s.consts 2, Store.get s.pts 0, s.rs) =
       (some 5, some 60, some 7, some 9, ⟨1, 4, 1⟩) := by decide
 
@@ -204,5 +466,11 @@ example :
 #print axioms resolve_file
 #print axioms resolve_settings
 #print axioms multi_file_merge
+#print axioms multi_file_merge_n
+#print axioms merge_consistent
+#print axioms resolve_file_order
+#print axioms siblings_isolated
+#print axioms sibling_reads_base
+#print axioms C07_witness_shared_base
 
 end Bptk.C07
